@@ -84,6 +84,10 @@ def check(ctx: Ctx) -> None:
     # an unreadable manifest read as empty makes live files unreachable
     from .c14 import parsers_read_containers_strictly
     parsers_read_containers_strictly(ctx, "C05.R22")
+    from .common import numbers_not_truth_tested
+    numbers_not_truth_tested(ctx, "C05.R23", ("garbage_collector",), "grace period 0, cutoffs, modification times")
+    from .c19 import durations_use_total_seconds
+    durations_use_total_seconds(ctx, "C05.R24", ("garbage_collector",))
 
 
 def abandonment_window_not_derived(ctx: Ctx, rid: str = "C05.R18") -> None:
